@@ -4,13 +4,12 @@ import json, os
 V = os.path.dirname(os.path.dirname(os.path.abspath(__file__)))
 BASE = "for m in $(cat /w/out/gomods.txt); do MF=$(cd /repo/$m && . /w/out/goenv.sh && gomodflag); (cd /repo/$m && go test $MF -json -vet=off -count=1 -timeout 25m ./...); done"
 
-CLAIMED = {
- "C20": dict(
-   text="Lean 4 theorems over an executable model of the Range pipeline (parse, 416 rule, clamp, Go slice-bounds rule made explicit) and of path cleaning/joining: never panics, 206 bodies are exactly the requested clamped ranges, multipart has one exact part per range, a cleaned rooted path has no '..' and stays under the root - for every content length, header byte string and component list. The model is tied to body/ and static/ by running both modifiers and the model on the same generated Range headers and request paths on every run, with an independent property oracle.",
-   note="Trusted: Lean kernel (+propext, Classical.choice, Quot.sound); hand-written model validated by differential runs only; stdlib models (strings/strconv/filepath) differentially tested, ASCII headers only; mime/multipart writer; filesystem semantics (symlinks out of scope, lexical containment); suffix ranges (bytes=-N) and other syntax outside first-last/first- are treated as 'unsupported syntax' for which a modifier error counts as rejection.",
-   technique="Lean 4 proof (induction over range lists / path components) + differential correspondence with body.Modifier and static.Modifier",
-   design="DESIGN.md §3 C20"),
-}
+import glob
+CLAIMED = {}
+for f in sorted(glob.glob(os.path.join(V, "manifest.d", "*.json"))):
+    j = json.load(open(f))
+    CLAIMED[j["property_id"]] = j
+NOT_APPLICABLE = {}  # pid -> reason, for properties deliberately not claimed
 
 ALL = ["C%02d" % i for i in range(1, 21)]
 
@@ -31,7 +30,7 @@ def main():
             "level_note": c["note"],
             "technique": c["technique"],
         })
-    na = [{"property_id": pid, "reason": "check not built yet in this round (model and harness planned in DESIGN.md §3); not claimed until its check exists"}
+    na = [{"property_id": pid, "reason": NOT_APPLICABLE.get(pid, "check not built yet (model and harness planned in DESIGN.md §3); not claimed until its check exists")}
           for pid in ALL if pid not in CLAIMED]
     m = {
         "version": 1,
